@@ -127,6 +127,14 @@ namespace pm
       }
    };
 
+   // derivation tree of user-visible rule types (independent of actions: what a control-based tree builder sees)
+   struct tnode
+   {
+      int node = -1;
+      int begin = 0, end = 0;
+      std::vector< tnode > kids;
+   };
+
    // behaviour of one slot for one class of next byte
    struct slot_cell
    {
@@ -206,6 +214,9 @@ namespace pm
       // the same before the node's own action is taken into account ("did the rule itself match")
       std::map< std::tuple< int, int, int, bool >, outcome > memo_pre;
       std::uint64_t caught = 0;  // exceptions converted by try_catch rules
+      bool build_tree = false;
+      std::vector< tnode > tstack;  // tstack[0] is the root
+      bool tree_discarded = false;  // a successfully matched typed node was discarded later (non-triviality for C12)
       // (node,pos,end) evaluated with actions enabled during the top-level run (not by later on-demand queries)
       std::set< std::tuple< int, int, int > > visited_act;
       bool top_running = false;
@@ -277,6 +288,18 @@ namespace pm
          return -1;
       }
 
+      std::size_t tree_mark() const
+      {
+         return build_tree ? tstack.back().kids.size() : 0;
+      }
+      void tree_rollback( std::size_t mark )
+      {
+         if( build_tree && tstack.back().kids.size() > mark ) {
+            tstack.back().kids.resize( mark );
+            tree_discarded = true;
+         }
+      }
+
       outcome seq_kids( const node& n, std::size_t from, int pos, ctx c )
       {
          int p = pos;
@@ -301,6 +324,18 @@ namespace pm
             return o;
          }
          const std::size_t mark = events.size();
+         const node& n0 = g.nodes[ std::size_t( ni ) ];
+         const bool typed = build_tree && !n0.tname.empty();
+         std::size_t tmark = 0;
+         if( build_tree ) {
+            tmark = tstack.back().kids.size();
+            if( typed ) {
+               tnode t;
+               t.node = ni;
+               t.begin = pos;
+               tstack.push_back( std::move( t ) );
+            }
+         }
          outcome r = eval_inner( ni, pos, c );
          const node& n = g.nodes[ std::size_t( ni ) ];
          if( r.k != FUEL ) {
@@ -327,6 +362,23 @@ namespace pm
          if( r.k != OK && events.size() > mark ) {
             events.resize( mark );
             saw_discarded_event = true;
+         }
+         if( build_tree ) {
+            if( typed ) {
+               tnode t = std::move( tstack.back() );
+               tstack.pop_back();
+               if( r.k == OK ) {
+                  t.end = r.end;
+                  tstack.back().kids.push_back( std::move( t ) );
+               }
+               else if( !t.kids.empty() ) {
+                  tree_discarded = true;
+               }
+            }
+            else if( r.k != OK && tstack.back().kids.size() > tmark ) {
+               tstack.back().kids.resize( tmark );
+               tree_discarded = true;
+            }
          }
          if( r.k != FUEL ) {
             memo[ std::make_tuple( ni, pos, c.end, c.act ) ] = r;
@@ -465,6 +517,7 @@ namespace pm
                   std::size_t i = 0;
                   outcome r = ok( p );
                   const std::size_t mark = events.size();
+                  const std::size_t tmk = tree_mark();
                   for( ; i < n.kids.size(); ++i ) {
                      r = eval( n.kids[ i ], q, c );
                      if( r.k != OK ) {
@@ -494,6 +547,7 @@ namespace pm
                         events.resize( mark );
                         saw_discarded_event = true;
                      }
+                     tree_rollback( tmk );
                      return ok( p );
                   }
                   if( n.o == STAR_PARTIAL ) {
@@ -522,6 +576,7 @@ namespace pm
                      return o;
                   }
                   const std::size_t mark = events.size();
+                  const std::size_t tmk = tree_mark();
                   outcome q = seq_kids( n, 0, p, c );
                   if( q.k == OK ) {
                      if( q.end == p ) {
@@ -539,17 +594,20 @@ namespace pm
                      events.resize( mark );
                      saw_discarded_event = true;
                   }
+                  tree_rollback( tmk );
                   return ok( p );
                }
             }
             case OPT: {
                const std::size_t mark = events.size();
+               const std::size_t tmk = tree_mark();
                outcome r = seq_kids( n, 0, pos, c );
                if( r.k == FAIL ) {
                   if( events.size() > mark ) {
                      events.resize( mark );
                      saw_discarded_event = true;
                   }
+                  tree_rollback( tmk );
                   return ok( pos );
                }
                return r;
@@ -566,7 +624,11 @@ namespace pm
             case NOT_AT: {
                ctx d = c;
                d.act = false;
+               const std::size_t tmk = tree_mark();
                outcome r = seq_kids( n, 0, pos, d );
+               if( r.k == FAIL ) {
+                  tree_rollback( tmk );
+               }
                if( r.k == OK ) {
                   if( r.end > pos ) {
                      backtracked_after_consuming = true;
@@ -717,6 +779,9 @@ namespace pm
          ctx c{ int( in.size() ), actions, 0, -1 };
          events.clear();
          visited_act.clear();
+         tstack.clear();
+         tstack.emplace_back();
+         tree_discarded = false;
          top_running = true;
          const outcome r = eval( g.top, pos, c );
          top_running = false;
@@ -730,8 +795,11 @@ namespace pm
             return it->second;
          }
          const std::vector< event > keep = events;
+         const bool bt = build_tree;
+         build_tree = false;  // on-demand queries must not touch the derivation tree of the top-level run
          ctx c{ end, act, 0, -1 };
          (void)eval( ni, pos, c );
+         build_tree = bt;
          events = keep;
          it = memo_pre.find( std::make_tuple( ni, pos, end, act ) );
          return it == memo_pre.end() ? outcome() : it->second;
@@ -745,8 +813,11 @@ namespace pm
             return it->second;
          }
          const std::vector< event > keep = events;
+         const bool bt = build_tree;
+         build_tree = false;
          ctx c{ end, act, 0, -1 };
          outcome r = eval( ni, pos, c );
+         build_tree = bt;
          events = keep;
          return r;
       }
